@@ -13,6 +13,7 @@
     applied to; bulk ranges of at most 2^17 indices. *)
 From Coq Require Import ZArith List Bool String.
 From Low Require Import Lib.Bits Lib.BitSeq Lib.Val Model.TailBitmap Spec.TailBitmapSpec.
+From Low Require Model.BitmapOf.
 Import ListNotations.
 Open Scope string_scope.
 Open Scope Z_scope.
@@ -71,6 +72,57 @@ Fixpoint run_proto (s : tb) (ps : list pop) : outcome :=
 Definition model_history (o : Z) (ps : list pop) : outcome :=
   if offset_in_domain o then run_proto (NewTailBitmap o) ps else OBad.
 
+(** a history that starts from the struct literal TailBitmap{Offset: off, Words: ws}
+    (the unexported [reclaimed] is 0); at most 2^16 words *)
+Definition model_literal (off : Z) (ws : list Z) (ps : list pop) : outcome :=
+  if offset_in_domain off && words_okb ws && (zlen ws <=? 2^16)
+  then run_proto (mkTB off ws 0) ps else OBad.
+
+(** the state at the end of a protocol history *)
+Inductive soutcome : Type :=
+| SBad
+| SPanic
+| SOk (s : tb).
+
+Fixpoint run_proto_state (s : tb) (ps : list pop) : soutcome :=
+  match ps with
+  | [] => SOk s
+  | p :: t =>
+      if negb (pop_in_domain s p) then SBad
+      else match pstep s p with
+           | None => SPanic
+           | Some (s', _) => run_proto_state s' t
+           end
+  end.
+
+(** one position read through TailBitmap.Get/Get1 and through bitmap.Get/Get1/SafeGet/SafeGet1 on the
+    exported Words, i = int32(j - Offset) (the domain keeps j - Offset inside int32) *)
+Definition words_entry (s : tb) (j : Z) : option (list Z) :=
+  let i := j - Offset s in
+  if j <? Offset s + 64 * zlen (Words s) then
+    match Get s j, BitmapOf.Get (Words s) i, Get1 s j, BitmapOf.Get1 (Words s) i,
+          BitmapOf.SafeGet (Words s) i, BitmapOf.SafeGet1 (Words s) i with
+    | Some a1, Some a2, Some a3, Some a4, Some a5, Some a6 => Some [a1; a2; a3; a4; a5; a6]
+    | _, _, _, _, _, _ => None
+    end
+  else
+    match BitmapOf.SafeGet (Words s) i, BitmapOf.SafeGet1 (Words s) i with
+    | Some a5, Some a6 => Some [a5; a6]
+    | _, _ => None
+    end.
+
+Definition words_in_domain (s : tb) (j : Z) : bool := (Offset s <=? j) && (j - Offset s <? 2^31).
+
+Definition model_words (o : Z) (ps : list pop) (js : list Z) : option (option (list (list Z))) :=
+  if offset_in_domain o then
+    match run_proto_state (NewTailBitmap o) ps with
+    | SBad => None
+    | SPanic => Some None
+    | SOk s =>
+        if forallb (words_in_domain s) js then Some (opt_all (map (words_entry s) js)) else None
+    end
+  else None.
+
 (** ---- val plumbing ---- *)
 
 Definition dec_pop (v : val) : option pop :=
@@ -88,6 +140,16 @@ Definition dec_args (a : list val) : option (Z * list pop) :=
   match a with
   | [VZ o; VL ops] =>
       match opt_all (map dec_pop ops) with Some ps => Some (o, ps) | None => None end
+  | _ => None
+  end.
+
+Definition dec_args_lit (a : list val) : option (Z * list Z * list pop) :=
+  match a with
+  | [VZ o; ws; VL ops] =>
+      match as_zs ws, opt_all (map dec_pop ops) with
+      | Some ws, Some ps => Some (o, ws, ps)
+      | _, _ => None
+      end
   | _ => None
   end.
 
@@ -119,6 +181,50 @@ Definition ops_C15 : list opdef := [
      op_spec := fun a obs =>
        match dec_args a, dec_obs obs with
        | Some (o, ps), Some l => check_history o ps l
+       | _, _ => false
+       end |};
+  (* op  bitmap.TailBitmap/literal   args [off, words, [call, ...]] : the same history protocol on
+     &TailBitmap{Offset: off, Words: words} *)
+  {| op_name := "bitmap.TailBitmap/literal";
+     op_run := fun a =>
+       match dec_args_lit a with
+       | Some (o, ws, ps) =>
+           match model_literal o ws ps with
+           | OBad => VBad
+           | OPanic => VPanic
+           | OOk l => VL (map enc_ob l)
+           end
+       | None => VBad
+       end;
+     op_spec := fun a obs =>
+       match dec_args_lit a, dec_obs obs with
+       | Some (o, ws, ps), Some l => check_literal o ws ps l
+       | _, _ => false
+       end |};
+  (* op  bitmap.TailBitmap/words   args [o, [call, ...], [j, ...]] : the history, then every j read
+     through TailBitmap.Get/Get1 and bitmap.Get/Get1/SafeGet/SafeGet1 on the exported Words *)
+  {| op_name := "bitmap.TailBitmap/words";
+     op_run := fun a =>
+       match a with
+       | [VZ o; VL ops; js] =>
+           match opt_all (map dec_pop ops), as_zs js with
+           | Some ps, Some js =>
+               match model_words o ps js with
+               | None => VBad
+               | Some None => VPanic
+               | Some (Some es) => VL (map vzs es)
+               end
+           | _, _ => VBad
+           end
+       | _ => VBad
+       end;
+     op_spec := fun a obs =>
+       match a, obs with
+       | [VZ o; VL ops; js], VL es =>
+           match opt_all (map dec_pop ops), as_zs js, opt_all (map as_zs es) with
+           | Some ps, Some js, Some es => check_words o (hist_after [] ps) js es
+           | _, _, _ => false
+           end
        | _, _ => false
        end |}
 ].
